@@ -500,7 +500,9 @@ def _relabel_mutations_node(
     sequence_length = remove_position[-1]
 
     output = np.full(num_mutations, tskit.NULL, dtype=np.int32)
-    nodes_map = np.full(num_nodes, tskit.NULL, dtype=np.int32)
+    # A node that has not (yet) been seen on an edge maps to itself: this is the case
+    # for mutations above isolated nodes, e.g. over samples with missing data
+    nodes_map = np.arange(num_nodes, dtype=np.int32)
     a, b, m = 0, 0, 0
     left = 0.0
     while left < sequence_length:
@@ -522,9 +524,12 @@ def _relabel_mutations_node(
         left = right
 
         while m < num_mutations and mutations_position[m] < right:
-            assert nodes_map[mutations_node[m]] != tskit.NULL
             output[m] = nodes_map[mutations_node[m]]
             m += 1
+
+    while m < num_mutations:  # sites to the right of the last edge
+        output[m] = nodes_map[mutations_node[m]]
+        m += 1
 
     return output
 
